@@ -152,6 +152,57 @@ theorem setAttrs_core {c : Ctx} {d : AttrDict} {o o' : Obj} (h : setAttrs c o d 
           · simp [kerr] at h1
       exact hc.trans (ih h)
 
+/-! ### the usage mask stays present -/
+
+def storedTypes : List Nat :=
+  [OT.certificate, OT.symmetricKey, OT.publicKey, OT.privateKey, OT.splitKey, OT.secretData, OT.opaqueData]
+
+theorem setSingle_maskSome {o o' : Obj} {n : String} {v : AVal} (h : setSingle o n v = .ok o')
+    (hm : o.mask.isSome = true) : o'.mask.isSome = true := by
+  unfold setSingle at h
+  repeat' (first
+    | (split at h)
+    | (cases h; done)
+    | (simp only [pure, Except.pure, Except.ok.injEq] at h; subst h; first | exact hm | rfl)
+    | (dsimp only at h))
+
+theorem setMulti_mask {o o' : Obj} {n : String} {vs : List AVal} (h : setMulti o n vs = .ok o') :
+    o'.mask = o.mask := by
+  unfold setMulti at h
+  repeat' (first
+    | (split at h)
+    | (cases h; done)
+    | (simp only [pure, Except.pure, Except.ok.injEq] at h; subst h; rfl)
+    | (dsimp only at h))
+
+theorem setAttr_maskSome {c : Ctx} {o o' : Obj} {n : String} {v : Collected} (h : setAttr c o n v = .ok o')
+    (hm : o.mask.isSome = true) : o'.mask.isSome = true := by
+  unfold setAttr at h
+  simp only [Ctx.isMultivalued, bind, Except.bind, pure, Except.pure] at h
+  repeat' (first
+    | (split at h)
+    | (cases h; done)
+    | (rw [setMulti_mask h]; exact hm)
+    | exact setSingle_maskSome h hm)
+
+theorem setAttrs_maskSome {c : Ctx} {d : AttrDict} {o o' : Obj} (h : setAttrs c o d = .ok o')
+    (hm : o.mask.isSome = true) : o'.mask.isSome = true := by
+  unfold setAttrs at h
+  induction d generalizing o with
+  | nil => simp [List.foldlM, pure, Except.pure] at h; subst h; exact hm
+  | cons kv rest ih =>
+    simp only [List.foldlM, bind, Except.bind] at h
+    split at h
+    · simp at h
+    · rename_i o1 h1
+      have hc : o1.mask.isSome = true := by
+        split at h1
+        · simp at h1
+        · split at h1
+          · exact setAttr_maskSome h1 hm
+          · simp [kerr] at h1
+      exact ih h hc
+
 /-! ### attribute operations change only names / groups / app-info / sensitive -/
 
 def protected4 : List String :=
